@@ -38,6 +38,7 @@ package upstream
 
 //@ contract (*LoadBalancedManager).Select
 //@   serves C15 C01 C06 C20
+//@   opt implements (Manager).Select
 //@   ensures[same-endpoint] result1 ==> result0 != nil && result0.EndpointID() == endpointID
 //@   ensures[local-first] old(endpointID in m.localUpstreams) ==> result1 && !result0.Forward() && lbMember(lbOf(m, endpointID), result0)
 //@   ensures[no-remote] !allowRemote && result1 ==> !result0.Forward()
